@@ -168,7 +168,7 @@ def _judge(ctx, case, origin, res=None, shrink=False):
         # an event inside the history already returned a non-canonical value: the failing case is the prefix
         i = res['bad_step'][0]
         ctx.evaluated(i + 1, 'event-value-fresh')
-        return _judge(ctx, {'history': h[:i], 'probe': h[i]}, origin)
+        return _judge(ctx, {'history': h[:i], 'probe': h[i]}, origin, shrink=shrink)
     ctx.evaluated(len(h) + 1, 'event-value-fresh' if probe != 'digest' else 'digest-fresh')
     if probe == 'digest':
         ctx.count('digest_entries_compared', res['entries_compared'])
@@ -178,7 +178,7 @@ def _judge(ctx, case, origin, res=None, shrink=False):
     if shrink and len(h) > 2:
         small = _shrink(ctx, case, sym)
         if small['history'] != h:
-            return _judge(ctx, small, origin)
+            return _judge(ctx, small, origin)       # re-judged (and reported) as the smaller case
     seen = _state.setdefault('reported', set())
     if (tuple(h), probe) in seen:          # the same case reached again (walk / alternative history / reload list)
         ctx.count('duplicate_violation_reports_suppressed')
